@@ -1,9 +1,10 @@
 (* Extraction of the executable model for the correspondence driver.
    ExtrOcamlBasic only; numbers stay the extracted inductive types. *)
 Require Import ExtrOcamlBasic.
-From JoseV Require Import Codec.B64Spec Codec.B64Impl Codec.B64Json Base.Json Base.JsonDump Base.JsonParse Io.Chain.
+From JoseV Require Import Codec.B64Spec Codec.B64Impl Codec.B64Json Base.Json Base.JsonDump Base.JsonParse Io.Chain Crypto.Sha Crypto.Hmac.
 Extraction "../ocaml/_gen/model.ml"
   enc dec dec_buf enc_buf replay
   dump parse_any parse_strict parse_proto jequal
   jose_b64_dec jose_b64_dec_load jose_b64_enc jose_b64_enc_dump
-  runc feeds all_sinks delivered b64dec_T b64enc_T atdone_T prefix_T.
+  runc feeds all_sinks delivered b64dec_T b64enc_T atdone_T prefix_T
+  hash hash_len hmac.
